@@ -11,6 +11,7 @@ import (
 	"bytes"
 	"fmt"
 	"io"
+	"os"
 	"runtime"
 	"runtime/debug"
 	"sort"
@@ -52,8 +53,8 @@ func init() {
 			"Seeded schedule of: handshake variants (honest, wrong genesis/network/version, non-status first, corrupted, silent, oversize), every message code of the protocol (0x00-0x11) " +
 			"as a VALID message built from the real chain, as a corrupted copy (networld.Mutate: bit flips, truncation, extension, outer/inner size-field attacks, non-canonical and wrong-shape " +
 			"canonical encodings) and as seeded semantically hostile messages (huge amount/skip, max-uint64 origin, unknown hashes, blocks with foreign bodies or tampered headers, unrequested and " +
-			"duplicated deliveries, second status, declared size above ProtocolMaxMsgSize); the node's own requests (GetBlock, GetBlockHeaders, GetBlockBodies, ... issued by the real fetcher and by " +
-			"real downloader sync cycles against a peer that owns 1-3 more real blocks) are answered honestly, corrupted, hostile, twice or not at all; simulated time is advanced so that the " +
+			"duplicated deliveries, the zero hash, header fields with hostile values before and behind the seal check, second status, declared size above ProtocolMaxMsgSize); the node's own requests (GetBlock, GetBlockHeaders, GetBlockBodies, ... issued by the real fetcher and by " +
+			"real downloader sync cycles against a peer that owns 1-3 more real blocks) are answered honestly, corrupted, hostile (missing/duplicated/reordered/tampered items, made-up header numbers; the adversary lies more often at the head-height and skeleton questions of a sync cycle), twice or not at all; simulated time is advanced so that the " +
 			"fetcher/downloader/handshake timeouts fire. Oracles: (a) no panic (handler goroutine: recovered and classified; node goroutine: process crash); (b) after every hostile message an honest " +
 			"probe peer gets the correct header and body of a known block at quiescence, a freshly handshaking probe too, and the honest probe is never dropped; (c) TotalAlloc around handling one message " +
 			"< 1 MiB stays below 64 MiB; (d) every reply to a decodable query consists of genuine chain data, and equals the reference answer for in-range queries; (e) the canonical chain is always a " +
@@ -81,6 +82,8 @@ func init() {
 		PanicClass:     kit.PanicInRepo("handler-panic"),
 	})
 }
+
+var echo = os.Getenv("C14SYNC_ECHO") != ""
 
 // ---------------------------------------------------------------------------------------------
 
@@ -152,7 +155,7 @@ type world struct {
 
 func (w *world) head() *types.Block { return w.node.Chain.CurrentBlock() }
 
-// nodeKnows reports whether block number n of the valid chain is canonical on the node.
+// nodeHeight is the number of the node's canonical head.
 func (w *world) nodeHeight() uint64 { return w.head().NumberU64() }
 
 func run(r *kit.Run) {
@@ -497,6 +500,9 @@ func (w *world) settle() {
 
 func (w *world) onNodeMsg(c *conn, m inMsg) {
 	w.r.Logf("%s <- node: %s %s", c.tag(), codeName(m.code), describe(m.code, m.data))
+	if echo {
+		fmt.Fprintf(os.Stderr, "ECHO %s <- node: %s %s\n", c.tag(), codeName(m.code), describe(m.code, m.data))
+	}
 	switch m.code {
 	case you.StatusMsg:
 		st := new(you.SimStatusData)
@@ -553,6 +559,10 @@ func (w *world) send(c *conn, code uint64, payload []byte, declared uint32, labe
 	}
 	w.r.Steps++
 	w.r.Logf("%s -> node: %s %s [%d bytes, declared %d] %s", c.tag(), codeName(code), label, len(payload), declared, short(payload))
+	if echo {
+		// triage aid for runs that end in a process crash (the trace dies with the process)
+		fmt.Fprintf(os.Stderr, "ECHO %s -> node: %s %s [%d bytes] %x\n", c.tag(), codeName(code), label, len(payload), payload[:min(len(payload), 4096)])
+	}
 	var m0, m1 runtime.MemStats
 	done := make(chan error, 1)
 	runtime.ReadMemStats(&m0)
@@ -573,8 +583,9 @@ func (w *world) send(c *conn, code uint64, payload []byte, declared uint32, labe
 		w.r.Count("writes-left-unread", 1)
 	}
 	if grew := m1.TotalAlloc - m0.TotalAlloc; len(payload) < 1<<20 && grew > 64<<20 {
-		w.r.Report("handler-allocation:"+codeName(code), "handling one %s message of %d bytes (declared %d) from %s allocated %d bytes | payload %x",
-			codeName(code), len(payload), declared, c.tag(), grew, payload[:min(len(payload), 512)])
+		// the exact figure varies by a few KiB from process to process: report it in units of 64 MiB
+		w.r.Report("handler-allocation:"+codeName(code), "handling one %s message of %d bytes (declared %d) from %s allocated more than %d MiB | payload %x",
+			codeName(code), len(payload), declared, c.tag(), (grew>>26)*64, payload[:min(len(payload), 512)])
 	}
 	w.settle()
 	return true
